@@ -43,6 +43,40 @@ def run_pair(ctx, bt, spec, builder):
                       {"spec": spec, "kind": spec.get("kind", "program")})
 
 
+def run_risk_pair(ctx, bt, rs, cut_i):
+    from .. import risk_lib as RL
+    cut = rs["dates"][cut_i]
+    hs = []
+    for pert in (None, cut_i):
+        root = None
+        try:
+            b = RL.build_risk_backtest(bt, rs, perturb_after=pert)
+            root = b.strategy
+            b.run()
+        except Exception as e:  # noqa
+            ctx.count("risk-run-raised:" + E.classify_exc(e))
+            if root is None or not hasattr(root, "data"):
+                return
+        h = S.node_histories(bt, root, cut)
+        try:
+            rh = RL.risk_backtest_history(b, cut)
+            flat = {"price": rh.get("price", [])}
+            for sec, v in rh.get("positions", {}).items():
+                flat["pos:" + sec] = v
+            for node, ms in rh.get("risks", {}).items():
+                for m, v in ms.items():
+                    flat["risk:%s:%s" % (node, m)] = v
+            h["__risk__"] = {k: [(-1 if x is None else E.f2b(float(x))) for x in v] for k, v in flat.items()}
+        except Exception:
+            pass
+        hs.append(h)
+    ctx.count("risk-pairs-compared")
+    d = S.first_diff(hs[0], hs[1])
+    if d is not None:
+        ctx.violation("C04/history-depends-on-later-data:unit-risk", "perturbing the unit-risk tables after %s changed history up to the cut: %s" % (cut, d),
+                      {"risk_spec": rs, "cut_i": cut_i, "kind": "risk"})
+
+
 def build_program(bt, spec):
     b, data, add = R.build_backtest(bt, spec)
     return b
@@ -95,6 +129,15 @@ def run(ctx, bt, scale=1):
         ctx.evaluations += 1
         ctx.classes.add(("fi", tuple(spec["kinds"]), spec["sched"], spec["perturb_plan"]["mode"], spec["perturb_plan"]["pos"]))
         run_pair(ctx, bt, spec, build_fi)
+    # risk programs: UpdateRisk + HedgeRisks over unit-risk tables that change on every date (FixedIncomeStrategy, hedge instruments
+    # with multipliers, lazily created instruments); the tables - and nothing else - are perturbed after the cut
+    from .. import risk_lib as RL
+    for _ in range(ctx.scale(30, 600) * scale):
+        rs = RL.gen_risk_backtest_spec(ctx.rng)
+        cut_i = ctx.rng.randint(0, len(rs["dates"]) - 2)
+        ctx.evaluations += 1
+        ctx.classes.add(("risk", len(rs["unit_risk"]), "early" if cut_i < len(rs["dates"]) // 3 else ("late" if cut_i > 2 * len(rs["dates"]) // 3 else "mid")))
+        run_risk_pair(ctx, bt, rs, cut_i)
     if scale == 1:
         # the Lean theorems say every engine operation at clock d reads the supplied columns at row d only (truncation commutes):
         # the model is given the data truncated at the clock of each step and must still reproduce the real post-state
@@ -115,5 +158,8 @@ def search(ctx, bt):
 
 def replay(bt, data, ctx):
     case = data["case"]
+    if case.get("kind") == "risk":
+        run_risk_pair(ctx, bt, case["risk_spec"], case["cut_i"])
+        return
     spec = case["spec"]
     run_pair(ctx, bt, spec, build_fi if case.get("kind") == "fi" else build_program)
